@@ -7,5 +7,6 @@ cd /verif/lean && lake build
 cd /verif/harness && cp /repo/Cargo.lock Cargo.lock 2>/dev/null || true
 cd /verif/harness && cargo build --offline --target-dir target-stable --features hooks
 cd /verif/harness && cargo +nightly build --offline --target-dir target-nightly --features hooks,nightly
+cd /verif/harness && cargo +nightly build --offline --target-dir target-simd --features hooks,nightly,simd
 clang -shared -fPIC -O1 -o /verif/work/mlock_fail.so /verif/interpose/mlock_fail.c -ldl
 echo setup-ok
